@@ -29,7 +29,7 @@ ASSUMPTIONS = ['the lookup and graph clauses are pure functions of their input a
                'flows per class) are the simulation targets',
                'Splitter copies are shallow: only scalar header fields are required to be independent',
                'flow ids are non-negative']
-PROBES = ['outputs_added_after_construction', 'table_replaced', 'split_packet_with_headers', 'sub_demux', 'sub_hub', 'sub_split', 'sub_fattree', 'empty_table', 'unknown_flow_to_default', 'unknown_flow_nowhere',
+PROBES = ['hub_listener_without_element_id', 'first_output_stamps_synchronously', 'outputs_added_after_construction', 'table_replaced', 'split_packet_with_headers', 'sub_demux', 'sub_hub', 'sub_split', 'sub_fattree', 'empty_table', 'unknown_flow_to_default', 'unknown_flow_nowhere',
           'end_device_hit', 'hub_through_wires', 'hub_add_endpoint', 'two_hubs', 'hub_nested_reply', 'fattree_decoy', 'fattree_k2', 'fattree_k4', 'fattree_k6', 'fattree_tcp',
           'fattree_many_to_one', 'server_WFQ', 'server_DRR', 'server_SP', 'server_VirtualClock', 'ack_class_delivered']
 
@@ -61,10 +61,12 @@ def gen(rng, tier):
         return {'sub': 'hub', 'n': n, 'ports': [rng.random() < 0.5 for _ in range(n)] if rng.random() < 0.7 else None,
                 'delays': [rng.choice([0.5, 1, 2, 3]) for _ in range(n)], 'via_add': rng.random() < 0.4,
                 'second_hub': rng.random() < 0.5, 'responders': [rng.random() < 0.3 for _ in range(n)],
+                'listeners': rng.choice([0, 0, 1, 2]),
                 'sends': [[rng.choice([0, 0.5, 1, 2]), rng.randrange(n)] for _ in range(rng.randint(1, 6))]}
     if sub == 'split':
         return {'sub': 'split', 'n': rng.choice([2, 2, 3, 4]), 'use_n': rng.random() < 0.5,
                 'connected': [rng.random() < 0.85 for _ in range(4)], 'npk': rng.randint(1, 5),
+                'stamping_first': rng.random() < 0.3,
                 # header fields beyond the constructor's: acknowledgements, coloured / stamped packets
                 'hdr': [[rng.choice([0, 0, 512, 4096]), rng.choice(['', 'green', 'red']), rng.choice([0, 0.25, 7]),
                          rng.choice([None, [3, 2]]), rng.choice([None, ['p1', 0.5]])] for _ in range(5)]}
@@ -216,6 +218,17 @@ def run_hub(w, case):
     except Exception as e:
         return [('C18.2/%s' % type(e).__name__, 'building a Hub with %d endpoints and ports %r raised %r' %
                  (n, pspec, e))], stats, False
+    # listeners that have no element id of their own (the library's PacketSink never sets one): they hear everything
+    listeners = []
+    if case.get('listeners'):
+        try:
+            for _ in range(case['listeners']):
+                ps = PacketSink(env)
+                hub.add_endpoint(ps, None)
+                listeners.append(ps)
+        except Exception as e:
+            return [('C18.2/%s' % type(e).__name__, 'attaching a PacketSink to the hub raised %r' % (e,))], stats, False
+        stats['hub_listener_without_element_id'] = 1
     # a second, independent hub in the same simulation: its endpoints must hear nothing of the first one's traffic
     others = []
     if case.get('second_hub'):
@@ -257,6 +270,16 @@ def run_hub(w, case):
                 viol.append(('C18.2', 'endpoint %s received the packet sent by ep%d at t=%r at %r; %s gives %r' %
                              (e.element_id, i, t, arr[0], 'its port device (wire delay %r)' % delays[j % len(delays)]
                               if via is not None else 'a direct connection', want)))
+    for r in w.log:
+        if r[0] == 'ERR':
+            viol.append(('C18.2/%s' % (r[4][1] if isinstance(r[4], tuple) and len(r[4]) > 1 else 'exc'),
+                         'the hub scenario raised %r' % (r[4],)))
+            return viol, stats, True
+    nsent = len(sends) + sum(len(e.replies) for e in eps)
+    for ps in listeners:
+        got = sum(ps.packets_received.values())
+        if got != nsent:
+            viol.append(('C18.2', 'a listening PacketSink on the hub received %d of the %d packets sent' % (got, nsent)))
     # replies sent from inside put(): same rule, every endpoint but the replier, once
     for j, e in enumerate(eps):
         for t, rp in e.replies:
@@ -304,6 +327,20 @@ def run_split(w, case):
         sp = Splitter()
         recs = [Rec(w, 'o0') if conn[0] else None, Rec(w, 'o1') if conn[1 % len(conn)] else None]
         sp.out1, sp.out2 = recs
+    if case.get('stamping_first') and recs[0] is not None:
+        # the first output is a device that stamps the packet inside put() (as a Port does): the copies for the other
+        # outputs are copies of the packet as it entered the splitter
+        class Stamping(Rec):
+            def put(self, p):
+                p.perhop_time['first-branch'] = 42.0
+                p.priorities['first-branch'] = 9
+                return Rec.put(self, p)
+        recs[0] = Stamping(w, 'o0')
+        if case.get('use_n'):
+            sp.outs[0] = recs[0]
+        else:
+            sp.out1 = recs[0]
+        stats['first_output_stamps_synchronously'] = 1
     for k in range(case.get('npk', 1)):
         p = Packet(1.5, 100 + k, k + 1, src='s', flow_id=3, payload=('pl', k))
         hdr = (case.get('hdr') or [])
@@ -320,6 +357,7 @@ def run_split(w, case):
         before = fields_of(p)
         before_all = all_fields(p)
         sp.put(p)
+        after_put = all_fields(p)      # the original as the first output left it
         for i, r in enumerate(recs):
             if r is None:
                 continue
@@ -345,9 +383,9 @@ def run_split(w, case):
                 # what a port on this branch does to the copy: a per-hop stamp and a priority tag
                 got.perhop_time['branch%d' % i] = 7.5
                 got.priorities['branch%d' % i] = 3
-                if all_fields(p) != before_all:
+                if all_fields(p) != after_put:
                     viol.append(('C18.3', 'stamping the copy on output %d (perhop_time / priorities) changed the original: '
-                                 '%r' % (i, [x for x, y in zip(all_fields(p), before_all) if x != y])))
+                                 '%r' % (i, [x for x, y in zip(all_fields(p), after_put) if x != y])))
     return viol, stats, case.get('npk', 1) >= 2
 
 
